@@ -160,11 +160,11 @@ func init() {
 		[]Stage{en("c19bloom", 16, 900, prm("full32", true)), en("c18table", 16, 300, prm("bloom_only", true, "full_grid", true))})
 
 	planTable["C04"] = enumPlan("exploration",
-		"Every sequence of up to 2 (quick) / 3 (thorough) pending writes out of 25 (Set, Set with an empty value, Delete, SetEntry with user meta and a future expiry, SetEntry with a past expiry; over keys {a, a\\x00, ab, b, \\xff}) inside a read-write transaction on top of each of 4 committed snapshots (empty; values in a deeper level / L0 / memtable with a tombstone; two versions of every key; tombstones over deeper values, value-log values, newest commit exactly at the read timestamp). After the sequence: Get of every key (Value and ValueCopy, user meta, expiry, version) and iterators in both directions x AllVersions x Prefix {none,a,ab} x SinceTs {0, readTs-1, readTs}, from Rewind and from Seek to every key and 4 probes, equal the reference overlay (pending entry shadows the snapshot at version readTs; deletion and expiry hide the key). Every iterator created before a later write is walked at the end and must not contain that write; a transaction begun before and one begun after the writes never see them.",
+		"Every sequence of up to 3 (quick) / 4 (thorough) pending writes out of 25 (Set, Set with an empty value, Delete, SetEntry with user meta and a future expiry, SetEntry with a past expiry; over keys {a, a\\x00, ab, b, \\xff}) inside a read-write transaction on top of each of 4 committed snapshots (empty; values in a deeper level / L0 / memtable with a tombstone; two versions of every key; tombstones over deeper values, value-log values, newest commit exactly at the read timestamp). After the sequence: Get of every key (Value and ValueCopy, user meta, expiry, version) and iterators in both directions x AllVersions x Prefix {none,a,ab} x SinceTs {0, readTs-1, readTs}, from Rewind and from Seek to every key and 4 probes, equal the reference overlay (pending entry shadows the snapshot at version readTs; deletion and expiry hide the key). Every iterator created before a later write is walked at the end and must not contain that write; a transaction begun before and one begun after the writes never see them.",
 		"Normal-mode on-disk DB; the transaction is discarded after each case so the snapshot is shared.",
 		"nested enumeration, shortest sequences first; distinct = distinct (snapshot, write sequence)",
-		[]Stage{en("c04ryow", 16, 90, prm("len", 2))},
-		[]Stage{en("c04ryow", 16, 1200, prm("len", 3))})
+		[]Stage{en("c04ryow", 16, 90, prm("len", 3))},
+		[]Stage{en("c04ryow", 16, 1500, prm("len", 4))})
 
 	planTable["C05"] = enumPlan("exploration",
 		"Databases: every subset of <= 2 (quick; plus 4 prefix-chain triples) / <= 3 (thorough) keys of the universe {a, a\\x00, a\\xff, ab, b, \\xff\\xff} x one of 5 version histories per key (v | v v' | v del | del v | v del v') x every placement of the global write order into 4 storage layers (a deeper level with several small tables, two L0 tables, the memtable; quick: cut points from a 4-value grid, thorough: every cut), inline and value-log values, bloom filters on, plus the internal end-of-transaction keys. Per database: direction x AllVersions x InternalAccess x Prefix {none,a,ab,b,a\\xff} x 6 (readTs, SinceTs) pairs, prefetch mode rotating over {off, size 0/1/2/100}: Rewind and Seek to every universe key and 9 gap probes (12 with internal access) walked to the end, Rewind after Seek, NewKeyIterator for every universe key, Valid/ValidForPrefix agreement; each item's key, version, value (Value and ValueCopy), user meta and deleted flag compared with a sorted-list reference model.",
@@ -467,7 +467,7 @@ func init() {
 		[]Stage{en("c35lock", 16, 1200, prm("len", 6))})
 
 	planTable["C26"] = enumPlan("exploration",
-		"Stream contents: every non-empty subset of 5 user keys {a,ab,b,c,d} x 3 version patterns (two versions each / newest only / mixed), values at threshold-1/threshold/threshold+1, delete markers, user meta, expiry; split into one or two streams with disjoint key ranges at every key boundary; x {Prepare on a non-empty DB, PrepareIncremental on an empty DB, over data in the last level only, over L0 + last level (the Flatten branch)}; each stream cut into Write batches by 3 patterns (one batch / singletons / two halves that may separate a key's versions), the two streams' batches interleaved 4 ways (including both streams in one buffer), done markers absent / with the last batch / in a separate buffer, plain / encrypted / snappy / in-memory (quick: 2 rotating combinations of these four per (content, split, mode); thorough: all 432); table size 300 bytes so a stream spans several tables. After Flush: the dump of ALL versions (value, user meta, expiry, delete markers) equals exactly the streamed entries plus, in incremental mode, the pre-existing ones; levels are structurally valid and match the MANIFEST and the files; the same after close and re-open; the next commits get timestamps above every streamed version and are read back.",
+		"Stream contents: every non-empty subset of 5 user keys {a,ab,b,c,d} x 3 version patterns (two versions each / newest only / mixed), values at threshold-1/threshold/threshold+1, delete markers, user meta, expiry; split into one or two streams with disjoint key ranges at every key boundary; x {Prepare on a non-empty DB, PrepareIncremental on an empty DB, over data in the last level only, over L0 + last level (the Flatten branch)}; each stream cut into Write batches by 3 patterns (one batch / singletons / two halves that may separate a key's versions), the two streams' batches interleaved 4 ways (including both streams in one buffer), done markers absent / with the last batch / in a separate buffer, plain / encrypted / snappy / in-memory (quick: 2 rotating combinations of these four per (content, split, mode); thorough: all 432); table size 300 bytes so a stream spans several tables, ValueLogMaxEntries 1 so the value log rotates between the streams of one Write call. After Flush: the dump of ALL versions (value, user meta, expiry, delete markers) equals exactly the streamed entries plus, in incremental mode, the pre-existing ones; levels are structurally valid and match the MANIFEST and the files; the same after close and re-open; the next commits get timestamps above every streamed version and are read back.",
 		"Drives StreamWriter.Prepare/PrepareIncremental/Write/Flush on the real DB.",
 		"nested enumeration; distinct = distinct (content, split, mode, batching, interleaving, done markers, configuration)",
 		[]Stage{en("c26sw", 16, 90, nil)},
